@@ -571,6 +571,17 @@ isal_deflate_int(struct isal_zstream *stream, uint8_t *start_in)
         else
                 isal_deflate_icf_pass(stream, start_in);
 
+        /* A pass that only completed a flush left pending by a previous call
+         * stops at the block boundary. Compress the input supplied with this
+         * call as well, so that a requested flush (or end of stream) covers it
+         * instead of being reported complete with that input only buffered. */
+        if (state->state == ZSTATE_NEW_HDR && stream->avail_in > 0 && stream->avail_out > 0) {
+                if (stream->level == 0)
+                        isal_deflate_pass(stream);
+                else
+                        isal_deflate_icf_pass(stream, start_in);
+        }
+
         /* Fill temporary output buffer then complete filling output buffer */
         if (stream->avail_out > 0 && stream->avail_out < 8 && state->state != ZSTATE_NEW_HDR) {
                 uint8_t *next_out;
